@@ -1,15 +1,33 @@
 from specs import KEYS, CHECKS, unit
 
+# Part (a) of C14 (scheduler-level state machine). Parts (b)/(c) are appended by
+# spec_c14_e2e.py, which is loaded after this file.
 KEYS['scheduler_c14'] = {'pkg': 'lib/dispatchcloud/scheduler'}
 
 CHECKS['C14'] = {
-    'ready': False,
+    'ready': True,
     'level': 'exploration',
-    'rule': 'TODO',
-    'assumptions': [],
+    'rule': '(a) rapid state machine: a real Scheduler whose runQueue()/sync() are actions, over an environment model that is both '
+            'WorkerPool (1-3 instances booting/idle/running/shutdown/unknown x run/hold/drain, process table starting -> running -> '
+            'exited-unreported -> reported -> forgotten, unkillable flag, processes left on not-yet-probed instances) and ContainerQueue '
+            '(API-side truth vs the dispatcher cache, Lock/Unlock/Cancel calls parked in flight until the machine completes them with a '
+            'drawn answer, Update()); 1-4 containers, average ~50 steps per case (-rapid.steps=60). Other actions: instance boots / is probed / '
+            'disappears / changes idle behaviour, process runs / exits with or without finalising / exit noticed / kill takes effect, API '
+            'priority change, cancel, requeue behind the dispatcher, quota flag. Invariants after every step: <=1 live process per '
+            'container; every StartContainer is for a container the queue has Locked with priority>0 and that Running() does not report; '
+            'after sync() every cancelled/completed/held/re-queued/unknown container with a lingering process received KillContainer '
+            '(unless an API call for it is still in flight). Non-trivial = some process exited without finalising, or a Lock call failed or '
+            'was in flight across a runQueue, or a process existed on an instance the pool had not probed yet (dispatcher restart). '
+            'distinct = fingerprint of the action sequence with all drawn parameters.',
+    'assumptions': [
+        '(a) the queue cache (what the dispatcher can see) is the reference for "Locked with priority>0 at that moment"; API-side changes become visible only through Update() or the answer to the dispatcher\'s own call',
+        '(a) a process on a not-yet-probed instance becomes known to the pool at the latest when the pool is asked to kill that container (a probe may complete at any time); without that the real code has a designed-in window covered only by fixStaleLocks, which is not part of runQueue/sync',
+        '(a) API semantics of the model: lock needs Queued and priority>0, unlock needs Locked, cancel needs a non-final state; any call may also fail for no reason',
+        '(a) waiting for scheduler goroutines uses the goroutine count (no sleep decides a verdict); the state space is sampled, not exhausted',
+    ],
     'units': [
         unit('sched-sm', 'scheduler_c14', '^TestVerifC14aStateMachine$',
              {'shards': 8, 'checks': 400, 'steps': 60},
-             {'shards': 16, 'checks': 10000, 'steps': 60, 'timeout': 1500}),
+             {'shards': 16, 'checks': 4000, 'steps': 60, 'timeout': 1500}),
     ],
 }
